@@ -578,6 +578,11 @@ syn_container("from-no-parens", "from = cfrom_a", "from(String) = cfrom_a", FR)
 syn_container("from-missing-eq", "from(String) cfrom_a", "from(String) = cfrom_a", FR)
 syn_container("from-missing-value", "from(u64)", "from(u64) = cfrom_b", FR)
 syn_container("from-empty-parens", "from() = cfrom_b", "from(u64) = cfrom_b", FR)
+syn_container("from-ref-mut", "from(&mut String) = cfrom_r", "from(&String) = cfrom_r", FR)
+syn_container("from-ref-lifetime", "from(&'static String) = cfrom_r", "from(&String) = cfrom_r", FR)
+syn_container("from-with-arrow", "from(String) = cfrom_a -> h::ConvErrA", "from(String) = cfrom_a", FR)
+syn_container("try_from-ref-mut", "try_from(&mut u64) = ctry_b -> h::ConvErrB", "try_from(&u64) = ctry_b -> h::ConvErrB", TF,
+              kinds=("struct", "unit"))
 syn_container("try_from-missing-arrow", "try_from(String) = ctry_a", "try_from(String) = ctry_a -> h::ConvErrA", TF,
               kinds=("struct", "unit"))
 syn_container("try_from-no-parens", "try_from = ctry_a -> h::ConvErrA", "try_from(String) = ctry_a -> h::ConvErrA", TF,
@@ -651,6 +656,11 @@ syn_field("from-no-parens", "from = h::w_from_u64", "from(u64) = h::w_from_u64",
 syn_field("from-missing-eq", "from(u64) h::w_from_u64", "from(u64) = h::w_from_u64", FR, ty="h::W")
 syn_field("from-missing-value", "from(String)", "from(String) = h::w_from_string", FR, ty="h::W")
 syn_field("from-empty-parens", "from() = h::w_from_u64", "from(u64) = h::w_from_u64", FR, ty="h::W")
+syn_field("from-ref-mut", "from(&mut String) = h::w_from_str", "from(&String) = h::w_from_str", FR, ty="h::W")
+syn_field("from-ref-lifetime", "from(&'static String) = h::w_from_str", "from(&String) = h::w_from_str", FR, ty="h::W")
+syn_field("from-with-arrow", "from(u64) = h::w_from_u64 -> h::Odd", "from(u64) = h::w_from_u64", FR, ty="h::W")
+syn_field("try_from-ref-mut", "try_from(&mut String) = h::w_try_str -> h::NotAscii",
+          "try_from(&String) = h::w_try_str -> h::NotAscii", TF, ty="h::W")
 syn_field("try_from-missing-arrow", "try_from(u64) = h::w_try_u64", "try_from(u64) = h::w_try_u64 -> h::Odd", TF, ty="h::W")
 syn_field("try_from-no-parens", "try_from = h::w_try_u64 -> h::Odd", "try_from(u64) = h::w_try_u64 -> h::Odd", TF, ty="h::W")
 syn_field("try_from-missing-error-type", "try_from(&String) = h::w_try_str ->",
